@@ -21,6 +21,11 @@ import (
 //         kind 2 ConflatedContext args = ninputs input..
 //   ops : 0 call | 5 i j call, and right after the function's Err() check of others[i]/contexts[i] cancel input node j
 //         1 n cancel input node n | 2 call the CancelFunc returned by ConflatedContext | 3 key Value(key) of the result
+//         4 nothing | 9 k j1..jk <base op> : the base op (0, 1 n, 2 or 4), during whose processing the scripted hooks of
+//         hook contexts cancelled input nodes j1..jk (somewhere inside the library / a hook goroutine: the quiescent
+//         observables do not depend on where exactly)
+//   a node with parent field -1 in cfg is a context that can never be cancelled (Background, TODO, WithValue(Background),
+//   WithoutCancel(..)); a pre-"cancelled" node may in reality be done because its deadline expired or with a custom cause.
 //   outs: (0 5 1 2) cancelled calls live waiters idk | (3) found value
 
 type c16key int
@@ -67,6 +72,42 @@ func (c *c16errhook) Err() error {
 	c.once.Do(c.fn)
 	return e
 }
+
+// c16hook is a context whose selected method (0 Err, 1 Done, 2 Value, 3 Deadline), the first time it is called once the
+// hook is armed (from inside the library, its hook goroutines or the std context package on their behalf), runs a scripted
+// action AFTER the method has computed its result: "the cancellation lands right after the library read X".
+type c16hook struct {
+	context.Context
+	method int
+	armed  *atomic.Bool
+	once   sync.Once
+	fn     func()
+}
+
+func (c *c16hook) fire(m int) {
+	if m == c.method && c.armed.Load() {
+		c.once.Do(c.fn)
+	}
+}
+func (c *c16hook) Err() error            { e := c.Context.Err(); c.fire(0); return e }
+func (c *c16hook) Done() <-chan struct{} { d := c.Context.Done(); c.fire(1); return d }
+func (c *c16hook) Value(k any) any       { v := c.Context.Value(k); c.fire(2); return v }
+func (c *c16hook) Deadline() (time.Time, bool) {
+	t, ok := c.Context.Deadline()
+	c.fire(3)
+	return t, ok
+}
+
+// AfterFunc is only reached when the wrapped context is itself a foreign context (a probe): forward, so that the probe
+// keeps counting.
+func (c *c16hook) AfterFunc(f func()) func() bool {
+	if a, ok := c.Context.(interface{ AfterFunc(func()) func() bool }); ok {
+		return a.AfterFunc(f)
+	}
+	return context.AfterFunc(c.Context, f)
+}
+
+var errC16Cause = fmt.Errorf("c16 custom cause")
 
 // c16afhook runs fn right after a registration made through context.AfterFunc has been installed on it (foreign context
 // with an AfterFunc method: the window between ChainAfterFunc's two registrations).
@@ -158,7 +199,10 @@ func c16Waiters(buf *[]byte) int {
 
 type c16node struct {
 	parent, key, val int // parent -1: root; key 0: no value
+	never            int // != 0: a context that can never be cancelled: 1 Background, 2 WithValue(Background), 3 WithoutCancel(x), 4 TODO
 }
+
+type c16hookSpec struct{ pos, method, target int } // pos: position among the contexts handed to the library
 
 type c16case struct {
 	kind  int
@@ -169,6 +213,18 @@ type c16case struct {
 	first []int   // the construct op: [0] or [5 i j]
 	later [][]int // ops after construction
 	early [][]int // cancel ops before construction
+	prek  map[int]int // how a pre-"cancelled" node became done: 0 cancel, 1 expired deadline, 2 WithTimeout(0), 3 cancel with a custom cause
+	hooks []c16hookSpec
+}
+
+func (c *c16case) cancellable() []int {
+	var r []int
+	for i, n := range c.env {
+		if n.never == 0 {
+			r = append(r, i)
+		}
+	}
+	return r
 }
 
 func (c *c16case) cfg() []int {
@@ -177,7 +233,11 @@ func (c *c16case) cfg() []int {
 		r[1] = 1
 	}
 	for _, n := range c.env {
-		r = append(r, n.parent+1, n.key, n.val)
+		if n.never != 0 {
+			r = append(r, -1, n.key, n.val)
+		} else {
+			r = append(r, n.parent+1, n.key, n.val)
+		}
 	}
 	r = append(r, len(c.pre))
 	r = append(r, c.pre...)
@@ -189,12 +249,41 @@ func (c *c16case) cfg() []int {
 func c16Run(h *hctx, id string, c *c16case, buf *[]byte) {
 	inner := make([]context.Context, len(c.env))
 	cancels := make([]context.CancelFunc, len(c.env))
+	isPre := map[int]bool{}
+	for _, p := range c.pre {
+		isPre[p] = true
+	}
+	var throwaway []context.CancelFunc
 	for i, n := range c.env {
 		parent := context.Background()
 		if n.parent >= 0 {
 			parent = inner[n.parent]
 		}
-		ctx, cancel := context.WithCancel(parent)
+		var ctx context.Context
+		cancel := context.CancelFunc(func() {})
+		switch {
+		case n.never == 1:
+			ctx = context.Background()
+		case n.never == 4:
+			ctx = context.TODO()
+		case n.never == 2:
+			ctx = context.Background()
+		case n.never == 3:
+			x, xc := context.WithCancel(context.Background())
+			throwaway = append(throwaway, xc)
+			ctx = context.WithoutCancel(x)
+			xc() // the context it was detached from is dead: must not matter
+		case isPre[i] && c.prek[i] == 1:
+			ctx, cancel = context.WithDeadline(parent, time.Now().Add(-time.Hour))
+		case isPre[i] && c.prek[i] == 2:
+			ctx, cancel = context.WithTimeout(parent, 0)
+		case isPre[i] && c.prek[i] == 3:
+			cc, ccancel := context.WithCancelCause(parent)
+			ccancel(errC16Cause)
+			ctx, cancel = cc, func() { ccancel(nil) }
+		default:
+			ctx, cancel = context.WithCancel(parent)
+		}
 		if n.key != 0 {
 			ctx = context.WithValue(ctx, c16key(n.key), n.val)
 		}
@@ -207,12 +296,41 @@ func c16Run(h *hctx, id string, c *c16case, buf *[]byte) {
 	}()
 	for _, p := range c.pre {
 		cancels[p]()
+		if inner[p].Err() == nil {
+			h.t.Fatalf("C16 harness: pre-cancelled node %d is live", p)
+		}
+	}
+	// scripted hook contexts
+	var armed atomic.Bool
+	var firedMu sync.Mutex
+	var fired []int
+	takeFired := func() []int {
+		firedMu.Lock()
+		defer firedMu.Unlock()
+		r := fired
+		fired = nil
+		return r
+	}
+	hooked := func(pos int, ctx context.Context) context.Context {
+		for _, hk := range c.hooks {
+			if hk.pos == pos && ctx != nil {
+				t := hk.target
+				return &c16hook{Context: ctx, method: hk.method, armed: &armed, fn: func() {
+					cancels[t]()
+					firedMu.Lock()
+					fired = append(fired, t)
+					firedMu.Unlock()
+				}}
+			}
+		}
+		return ctx
 	}
 	var live atomic.Int64
 	var calls atomic.Int64
 	var res context.Context
 	var resCancel context.CancelFunc
 	var primary context.Context
+	resErr := func() error { return res.Err() }
 	idk := 0
 	panicked := false
 	observe := func() []int {
@@ -220,7 +338,7 @@ func c16Run(h *hctx, id string, c *c16case, buf *[]byte) {
 			h.line("MONITOR C16 case %s: goroutines still runnable 5s after an operation (hook goroutine stuck?)", id)
 		}
 		cancelled := 0
-		if res != nil && res.Err() != nil {
+		if res != nil && resErr() != nil {
 			cancelled = 1
 		}
 		if panicked {
@@ -233,7 +351,7 @@ func c16Run(h *hctx, id string, c *c16case, buf *[]byte) {
 		return []int{cancelled, int(calls.Load()), lv, c16Waiters(buf), idk}
 	}
 	handed := func(i int, probe bool) context.Context {
-		if probe {
+		if probe && c.env[i].never == 0 {
 			return &c16probe{Context: inner[i], live: &live}
 		}
 		return inner[i]
@@ -255,62 +373,85 @@ func c16Run(h *hctx, id string, c *c16case, buf *[]byte) {
 				h.line("MONITOR C16 case %s: the library call panicked: %v", id, r)
 			}
 		}()
+		armed.Store(true)
 		switch c.kind {
 		case 0:
-			var other context.Context = inner[c.args[1]]
+			var other context.Context = hooked(1, inner[c.args[1]])
 			if len(first) == 3 {
 				j := first[2]
 				other = &c16afhook{Context: other, fn: func() { cancels[j]() }}
 			}
-			ChainAfterFunc(inner[c.args[0]], other, func() { calls.Add(1) })
+			ChainAfterFunc(hooked(0, inner[c.args[0]]), other, func() { calls.Add(1) })
 		case 1:
+			var primaryInner context.Context
 			if c.args[0] != 0 {
-				primary = inner[c.args[0]-1]
+				primaryInner = inner[c.args[0]-1]
+				primary = hooked(0, primaryInner)
 			}
 			others := make([]context.Context, c.args[1])
 			for k := 0; k < c.args[1]; k++ {
 				if o := c.args[2+k]; o != 0 {
-					others[k] = mid(k, handed(o-1, c.probe))
+					others[k] = hooked(1+k, mid(k, handed(o-1, c.probe)))
 				}
 			}
-			anyPre := primary != nil && primary.Err() != nil
+			anyPre := primaryInner != nil && primaryInner.Err() != nil
 			for k := 0; k < c.args[1]; k++ {
 				if o := c.args[2+k]; o != 0 && inner[o-1].Err() != nil {
 					anyPre = true
 				}
 			}
-			res = CombineContext(primary, others...)
-			if anyPre && res.Err() == nil {
-				// "already cancelled if any input already is": at the moment of return, before any hook goroutine is waited for
-				h.line("MONITOR C16 case %s: CombineContext returned a live context although an input was already cancelled before the call", id)
+			if anyPre {
+				// one P: a hook goroutine started by the call cannot run before the check below, so "already cancelled
+				// at return" is observed deterministically
+				prev := runtime.GOMAXPROCS(1)
+				res = CombineContext(primary, others...)
+				live := res.Err() == nil
+				runtime.GOMAXPROCS(prev)
+				if live {
+					// "already cancelled if any input already is": at the moment of return, before any hook goroutine has run
+					h.line("MONITOR C16 case %s: CombineContext returned a live context although an input was already done (cancelled / deadline exceeded) before the call", id)
+				}
+			} else {
+				res = CombineContext(primary, others...)
 			}
 			if primary != nil && res == primary {
 				idk = 1
+				resErr = primaryInner.Err // never call the methods of a hook context from the harness
 			} else if primary == nil && res == context.Background() {
 				idk = 2
 			}
 		case 2:
 			ins := make([]context.Context, c.args[0])
 			for k := range ins {
-				ins[k] = mid(k, inner[c.args[1+k]])
+				ins[k] = hooked(k, mid(k, inner[c.args[1+k]]))
 			}
 			res, resCancel = ConflatedContext(ins...)
 		}
 	}
 	var ops, outs [][]int
+	// record appends the op with the observation taken at quiescence; hooks that fired during its processing become part of it
+	record := func(op []int) {
+		obs := observe()
+		if js := takeFired(); len(js) > 0 {
+			op = append(append([]int{9, len(js)}, js...), op...)
+			obs = observe() // (nothing can have changed: observe never calls a hooked method)
+			h.count("hook_fired_ops", 1)
+		}
+		ops, outs = append(ops, op), append(outs, obs)
+	}
 	do := func(op []int) {
 		switch op[0] {
 		case 0, 5:
 			construct(op)
-			ops, outs = append(ops, op), append(outs, observe())
+			record(op)
 		case 1:
 			cancels[op[1]]()
-			ops, outs = append(ops, op), append(outs, observe())
+			record(op)
 		case 2:
 			if resCancel != nil {
 				resCancel()
 			}
-			ops, outs = append(ops, op), append(outs, observe())
+			record(op)
 		case 3:
 			o := []int{0, 0}
 			if res != nil {
@@ -319,6 +460,13 @@ func c16Run(h *hctx, id string, c *c16case, buf *[]byte) {
 				}
 			}
 			ops, outs = append(ops, op), append(outs, o)
+			c16Settle(buf)
+			firedMu.Lock()
+			n := len(fired)
+			firedMu.Unlock()
+			if n > 0 { // a Value hook fired during the lookup
+				record([]int{4})
+			}
 		}
 	}
 	for _, op := range c.early {
@@ -329,8 +477,6 @@ func c16Run(h *hctx, id string, c *c16case, buf *[]byte) {
 		do(op)
 	}
 	// property-level monitors on the final state (independent of the model)
-	final := outs[len(outs)-1]
-	_ = final
 	if resCancel != nil {
 		resCancel()
 		if !c16Settle(buf) || c16Waiters(buf) != 0 {
@@ -339,6 +485,9 @@ func c16Run(h *hctx, id string, c *c16case, buf *[]byte) {
 		if res.Err() == nil {
 			h.line("MONITOR C16 case %s: ConflatedContext's result is not cancelled after its cancel function was called", id)
 		}
+	}
+	for _, xc := range throwaway {
+		xc()
 	}
 	h.line("K1 ctx %s %s # %s | %s", id, ints(c.cfg()), joinRecs(ops), joinRecs(outs))
 	h.count(fmt.Sprintf("kind%d_cases", c.kind), 1)
@@ -359,7 +508,9 @@ func c16Perms(l []int) [][]int {
 	return r
 }
 
-// c16Exhaustive: every subset pre-cancelled x every order of the later cancellations, for every small shape.
+// c16Exhaustive: every pre-state (live / cancelled / done for another reason: expired deadline, zero timeout, custom cause)
+// of every cancellable input x every order of the later cancellations, for every small shape; never-cancellable inputs at
+// every position; scripted hook contexts (every method x every target) on the smallest shapes.
 func c16Exhaustive(h *hctx, maxn int, kinds int, buf *[]byte) {
 	id := 0
 	run := func(c *c16case) {
@@ -367,20 +518,39 @@ func c16Exhaustive(h *hctx, maxn int, kinds int, buf *[]byte) {
 		c16Run(h, fmt.Sprintf("ex-%d", id), c, buf)
 	}
 	lookups := [][]int{{3, 1}, {3, 2}, {3, 3}}
-	each := func(nenv int, f func(pre []int, order []int)) {
-		for mask := 0; mask < 1<<nenv; mask++ {
+	// each: nodes = the cancellable nodes; states: 0 live, 1 cancelled, 2 done for another reason
+	each := func(nodes []int, f func(pre []int, prek map[int]int, order []int)) {
+		total := 1
+		for range nodes {
+			total *= 3
+		}
+		for m := 0; m < total; m++ {
 			var pre, liveN []int
-			for i := 0; i < nenv; i++ {
-				if mask&(1<<i) != 0 {
-					pre = append(pre, i)
-				} else {
-					liveN = append(liveN, i)
+			prek := map[int]int{}
+			x := m
+			for _, node := range nodes {
+				switch x % 3 {
+				case 0:
+					liveN = append(liveN, node)
+				case 1:
+					pre = append(pre, node)
+				case 2:
+					pre = append(pre, node)
+					prek[node] = 1 + (node+m)%3
 				}
+				x /= 3
 			}
 			for _, order := range c16Perms(liveN) {
-				f(pre, order)
+				f(pre, prek, order)
 			}
 		}
+	}
+	seq := func(n int) []int {
+		r := make([]int, n)
+		for i := range r {
+			r[i] = i
+		}
+		return r
 	}
 	cancelOps := func(order []int) [][]int {
 		var r [][]int
@@ -392,30 +562,80 @@ func c16Exhaustive(h *hctx, maxn int, kinds int, buf *[]byte) {
 	roots := func(n int) []c16node {
 		env := make([]c16node, n)
 		for i := range env {
-			env[i] = c16node{-1, 1 + i%2, 100 + i}
+			env[i] = c16node{parent: -1, key: 1 + i%2, val: 100 + i}
 		}
 		return env
 	}
-	// ChainAfterFunc: independent contexts, the same context twice, parent/child both ways
+	// withNever: the shape `env` with node k replaced by a context that can never be cancelled
+	withNever := func(env []c16node, k int) ([]c16node, []int) {
+		e := append([]c16node{}, env...)
+		fl := 1 + (k+len(env))%4
+		e[k] = c16node{parent: -1, never: fl}
+		if fl == 2 || fl == 3 {
+			e[k].key, e[k].val = 1+k%2, 100+k
+		}
+		var nodes []int
+		for i := range e {
+			if e[i].never == 0 {
+				nodes = append(nodes, i)
+			}
+		}
+		return e, nodes
+	}
+	// ChainAfterFunc: independent contexts, the same context twice, parent/child both ways, siblings
 	chainShapes := []struct {
 		env       []c16node
 		cx, other int
 	}{
 		{roots(2), 0, 1}, {roots(1), 0, 0},
-		{[]c16node{{-1, 0, 0}, {0, 0, 0}}, 0, 1}, {[]c16node{{-1, 0, 0}, {0, 0, 0}}, 1, 0},
-		{[]c16node{{-1, 0, 0}, {0, 0, 0}, {0, 0, 0}}, 1, 2},
+		{[]c16node{{parent: -1}, {parent: 0}}, 0, 1}, {[]c16node{{parent: -1}, {parent: 0}}, 1, 0},
+		{[]c16node{{parent: -1}, {parent: 0}, {parent: 0}}, 1, 2},
 	}
 	for _, sh := range chainShapes {
 		if kinds&1 == 0 {
 			break
 		}
-		each(len(sh.env), func(pre, order []int) {
-			run(&c16case{kind: 0, env: sh.env, pre: pre, args: []int{sh.cx, sh.other}, first: []int{0}, later: cancelOps(order)})
+		each(seq(len(sh.env)), func(pre []int, prek map[int]int, order []int) {
+			run(&c16case{kind: 0, env: sh.env, pre: pre, prek: prek, args: []int{sh.cx, sh.other}, first: []int{0}, later: cancelOps(order)})
 			// the same with node j cancelled between ChainAfterFunc's two registrations
 			for j := range sh.env {
-				run(&c16case{kind: 0, env: sh.env, pre: pre, args: []int{sh.cx, sh.other}, first: []int{5, 0, j}, later: cancelOps(order)})
+				run(&c16case{kind: 0, env: sh.env, pre: pre, prek: prek, args: []int{sh.cx, sh.other}, first: []int{5, 0, j}, later: cancelOps(order)})
 			}
 		})
+	}
+	if kinds&1 != 0 {
+		// f never runs through a context that can never be cancelled
+		for k := 0; k < 3; k++ {
+			env := roots(2)
+			var nodes []int
+			switch k {
+			case 0, 1:
+				env, nodes = withNever(env, k)
+			default:
+				env, _ = withNever(env, 0)
+				env, nodes = withNever(env, 1)
+			}
+			each(nodes, func(pre []int, prek map[int]int, order []int) {
+				run(&c16case{kind: 0, env: env, pre: pre, prek: prek, args: []int{0, 1}, first: []int{0}, later: cancelOps(order)})
+			})
+		}
+		// scripted hooks: either or both contexts, every method, every target, both cancel orders
+		for which := 1; which <= 3; which++ {
+			for method := 0; method < 4; method++ {
+				for target := 0; target < 2; target++ {
+					for _, order := range c16Perms([]int{0, 1}) {
+						var hooks []c16hookSpec
+						if which&1 != 0 {
+							hooks = append(hooks, c16hookSpec{0, method, target})
+						}
+						if which&2 != 0 {
+							hooks = append(hooks, c16hookSpec{1, method, 1 - target})
+						}
+						run(&c16case{kind: 0, env: roots(2), args: []int{0, 1}, first: []int{0}, later: cancelOps(order), hooks: hooks})
+					}
+				}
+			}
+		}
 	}
 	// CombineContext: node 0 is the primary (when non-nil), others are nodes 1..; every nil pattern
 	for n := 0; n <= maxn && kinds&2 != 0; n++ {
@@ -438,10 +658,32 @@ func c16Exhaustive(h *hctx, maxn int, kinds int, buf *[]byte) {
 					}
 				}
 				env := roots(nenv)
-				each(nenv, func(pre, order []int) {
+				each(seq(nenv), func(pre []int, prek map[int]int, order []int) {
 					later := append(append([][]int{}, lookups...), cancelOps(order)...)
-					run(&c16case{kind: 1, probe: true, env: env, pre: pre, args: args, first: []int{0}, later: later})
+					run(&c16case{kind: 1, probe: true, env: env, pre: pre, prek: prek, args: args, first: []int{0}, later: later})
 				})
+				// a context that can never be cancelled as the primary / as each other: never cancels through it
+				if nilmask == 0 && n <= 2 {
+					for k := 0; k < nenv; k++ {
+						e, nodes := withNever(env, k)
+						each(nodes, func(pre []int, prek map[int]int, order []int) {
+							later := append(append([][]int{}, lookups...), cancelOps(order)...)
+							run(&c16case{kind: 1, probe: true, env: e, pre: pre, prek: prek, args: args, first: []int{0}, later: later})
+						})
+					}
+				}
+			}
+		}
+	}
+	if kinds&2 != 0 {
+		// scripted hooks on the primary and two others
+		for pos := 0; pos < 3; pos++ {
+			for method := 0; method < 4; method++ {
+				for target := 0; target < 3; target++ {
+					later := append(append([][]int{}, lookups...), cancelOps([]int{(target + 1) % 3, target, (target + 2) % 3})...)
+					run(&c16case{kind: 1, probe: true, env: roots(3), args: []int{1, 2, 2, 3}, first: []int{0}, later: later,
+						hooks: []c16hookSpec{{pos, method, target}}})
+				}
 			}
 		}
 	}
@@ -452,7 +694,7 @@ func c16Exhaustive(h *hctx, maxn int, kinds int, buf *[]byte) {
 		for k := 0; k < n; k++ {
 			args = append(args, k)
 		}
-		each(n, func(pre, order []int) {
+		each(seq(n), func(pre []int, prek map[int]int, order []int) {
 			for upos := -1; upos <= len(order); upos++ {
 				if n == maxn && maxn >= 4 && upos > 0 && upos < len(order) {
 					continue
@@ -467,42 +709,82 @@ func c16Exhaustive(h *hctx, maxn int, kinds int, buf *[]byte) {
 				if upos == len(order) {
 					later = append(later, []int{2})
 				}
-				run(&c16case{kind: 2, env: env, pre: pre, args: args, first: []int{0}, later: later})
+				run(&c16case{kind: 2, env: env, pre: pre, prek: prek, args: args, first: []int{0}, later: later})
 			}
 		})
+		// an input that can never be cancelled, at every position: the result stays live until cancel() is called
+		for k := 0; k < n; k++ {
+			e, nodes := withNever(env, k)
+			each(nodes, func(pre []int, prek map[int]int, order []int) {
+				for _, withUser := range []bool{false, true} {
+					later := append(append([][]int{}, lookups...), cancelOps(order)...)
+					if withUser {
+						later = append(later, []int{2})
+					}
+					run(&c16case{kind: 2, env: e, pre: pre, prek: prek, args: args, first: []int{0}, later: later})
+				}
+			})
+		}
+	}
+	if kinds&4 != 0 {
+		// scripted hooks on each of two inputs
+		for pos := 0; pos < 2; pos++ {
+			for method := 0; method < 4; method++ {
+				for target := 0; target < 2; target++ {
+					for _, order := range c16Perms([]int{0, 1}) {
+						later := append(append([][]int{}, lookups...), cancelOps(order)...)
+						run(&c16case{kind: 2, env: roots(2), args: []int{2, 0, 1}, first: []int{0}, later: later,
+							hooks: []c16hookSpec{{pos, method, target}}})
+					}
+				}
+			}
+		}
 	}
 	h.line("EXHAUSTIVE C16 shapes up to %d inputs: %d cases", maxn, id)
 }
 
-// c16Random: seeded cases over random forests (related contexts, aliasing), values, cancellations before, DURING
-// (between the Err() check and the registration) and after construction.
+// c16Random: seeded cases over random forests (related contexts, aliasing, contexts that can never be cancelled), values,
+// inputs done for another reason than cancel, cancellations before, DURING (at an exact point: between the Err() check and
+// the registration; or wherever a scripted hook context's method is first called) and after construction.
 func c16Random(h *hctx, n int, kinds int, buf *[]byte) {
 	for id := 0; id < n; id++ {
 		rng := h.rng
 		nenv := 1 + rng.Intn(5)
 		env := make([]c16node, nenv)
 		for i := range env {
-			env[i] = c16node{-1, 0, 0}
+			env[i] = c16node{parent: -1}
 			if i > 0 && rng.Intn(100) < 40 {
 				env[i].parent = rng.Intn(i)
 			}
 			if rng.Intn(100) < 60 {
 				env[i].key, env[i].val = 1+rng.Intn(2), 10*(i+1)+rng.Intn(10) // small: the model counts in unary
 			}
+			if rng.Intn(100) < 12 {
+				env[i].parent, env[i].never = -1, 1+rng.Intn(4)
+				if env[i].never == 1 || env[i].never == 4 {
+					env[i].key, env[i].val = 0, 0
+				}
+			}
 		}
-		c := &c16case{env: env, kind: rng.Intn(3)}
+		c := &c16case{env: env, kind: rng.Intn(3), prek: map[int]int{}}
 		for kinds&(1<<c.kind) == 0 {
 			c.kind = (c.kind + 1) % 3
 		}
-		for i := 0; i < nenv; i++ {
+		canc := c.cancellable()
+		pick := func() int { return canc[rng.Intn(len(canc))] }
+		for _, i := range canc {
 			if rng.Intn(100) < 20 {
 				c.pre = append(c.pre, i)
+				if rng.Intn(100) < 50 {
+					c.prek[i] = 1 + rng.Intn(3)
+				}
 			}
 		}
 		ninputs := 0
 		switch c.kind {
 		case 0:
 			c.args = []int{rng.Intn(nenv), rng.Intn(nenv)}
+			ninputs = 2
 		case 1:
 			c.probe = rng.Intn(100) < 50
 			p := 0
@@ -539,28 +821,44 @@ func c16Random(h *hctx, n int, kinds int, buf *[]byte) {
 			ninputs = k
 		}
 		c.first = []int{0}
-		if c.kind == 0 && rng.Intn(100) < 45 {
-			c.first = []int{5, 0, rng.Intn(nenv)}
-			h.count("mid_cancel_cases", 1)
-		}
-		if c.kind != 0 && ninputs > 0 && rng.Intn(100) < 45 {
-			pos := rng.Intn(ninputs)
-			ok := c.kind == 2 || c.args[2+pos] != 0
-			if ok {
-				c.first = []int{5, pos, rng.Intn(nenv)}
+		if len(canc) > 0 {
+			r := rng.Intn(100)
+			switch {
+			case r < 30 && c.kind == 0 && env[c.args[1]].never == 0:
+				c.first = []int{5, 0, pick()}
 				h.count("mid_cancel_cases", 1)
+			case r < 30 && c.kind != 0 && ninputs > 0:
+				pos := rng.Intn(ninputs)
+				if c.kind == 2 || c.args[2+pos] != 0 {
+					c.first = []int{5, pos, pick()}
+					h.count("mid_cancel_cases", 1)
+				}
+			case r >= 30 && r < 70:
+				// scripted hook contexts on a share of the handed contexts (position 0 = ctx / primary / contexts[0])
+				npos := ninputs
+				if c.kind == 1 {
+					npos = 1 + ninputs
+				}
+				for pos := 0; pos < npos; pos++ {
+					if rng.Intn(100) < 60 {
+						c.hooks = append(c.hooks, c16hookSpec{pos, rng.Intn(4), pick()})
+					}
+				}
+				if len(c.hooks) > 0 {
+					h.count("hook_cases", 1)
+				}
 			}
-		}
-		if rng.Intn(100) < 25 {
-			c.early = append(c.early, []int{1, rng.Intn(nenv)})
+			if rng.Intn(100) < 25 {
+				c.early = append(c.early, []int{1, pick()})
+			}
 		}
 		nlater := rng.Intn(nenv + 2)
 		c.later = append(c.later, []int{3, 1}, []int{3, 2})
 		for j := 0; j < nlater; j++ {
 			if c.kind == 2 && rng.Intn(100) < 15 {
 				c.later = append(c.later, []int{2})
-			} else {
-				c.later = append(c.later, []int{1, rng.Intn(nenv)})
+			} else if len(canc) > 0 {
+				c.later = append(c.later, []int{1, pick()})
 			}
 		}
 		c.later = append(c.later, []int{3, 1})
